@@ -900,6 +900,13 @@ def source_grid(ck):
         ("bit-exhaustive", ['self.c <<= cohdl.select_with(self.p, {"1": self.b, "0": self.q})'], None),
         ("partial-no-default-stored", ['x = cohdl.select_with(self.a, {"10": self.b | self.p})', "self.c <<= x"],
          "x (no value for the unlisted selector values)"),
+        # 2**width entries, but one of them is a metavalue pattern: a two-valued selector value stays uncovered
+        ("meta-four-entries-no-default", ['self.c <<= cohdl.select_with(self.a, {"00": self.b, "01": self.p, "10": self.q, "1X": self.b ^ self.p})'],
+         "the select_with result (no value for selector 11: the fourth entry is a metavalue pattern)"),
+        ("meta-dontcare-no-default", ['self.c <<= cohdl.select_with(self.a, {"00": self.b, "01": self.p, "1-": self.q, "0-": self.b ^ self.p})'],
+         "the select_with result (no value for selectors 10 and 11)"),
+        ("meta-bit-no-default", ['self.c <<= cohdl.select_with(self.p, {"0": self.b, "X": self.q})'],
+         "the select_with result (no value for selector 1)"),
     ]
     for nm, lines, bad in sw:
         cnt[0] += 1
